@@ -19,12 +19,25 @@ Oracles (the property statement on what the programs print):
     permuting the BAMs leaves the ALT set unchanged;
   * pools (`--sample-pool`, incl. a sample in several pools and a pool of one) vs physically merged BAMs carrying the
     pool's name: identical multiset of encoded reads with counts for every locus (exact), identical columns.
+  * optional arrays (`--report AFP AOP ACP GP GL`, none / all / a random subset per dataset): call / call-exact columns are
+    compared as text; for assemble every per-allele value (AFP, AOP, ACP) and per-genotype value (GP, GL) of a sample is
+    compared keyed by allele SEQUENCES (allele numbers differ between runs), a genotype with the reference allele being
+    skipped for GP when the reference is masked in one of the two runs only;
+  * the same selections through one multi-sample BAM: all samples, a subset in another order chosen by a
+    `sample<TAB>path` list file, and the samples named by read-group ID (`--read-group-field ID`, ploidy file keyed by ID);
+  * datasets with a (sample, locus) pair without reads ("nodepth"), ploidies 2..8 incl. odd ones, a pool that carries the
+    name of one of its members;
+  * per-sample parameter plumbing (harness/plumbing.py): with per-sample --ploidy / --inbreeding / --mcmc-temperatures /
+    --gamete-* files (shuffled lines, a stranger, pairwise different values, two samples of equal ploidy) every model fit
+    and every likelihood / posterior array call of assemble, call, call-exact and call-pedigree can be attributed to a
+    sample whose own parameters and own encoded reads it received.
 Float summation order when the same reads arrive in another order is not modelled: a difference of one unit in the last
 printed digit with identical read multisets is counted (`pool:float-order-tolerated`), anything larger is reported.
 """
 from __future__ import annotations
 
 import itertools
+import math
 import os
 import shutil
 import tempfile
@@ -32,6 +45,7 @@ import tempfile
 import numpy as np
 
 from . import common as C
+from . import plumbing
 from . import synth
 
 PROP = "C10"
@@ -52,14 +66,17 @@ THEOREMS = [
     "MCHap.C10.haplotypes_monotone",
     "MCHap.C10.dots_only_become_named",
 ]
-RULE = ("cases: synthetic datasets (3-4 samples, ploidy 2/4, 4-5 loci incl. one without SNVs and one with >= 2) x program "
-        "(call, call-exact, assemble) x selection of samples (every non-empty subset; several orders) ; pool files (pool of two, "
-        "pool of all, pool of one, a sample in several pools) vs merged BAMs; every (locus, sample) of every run gives one "
+RULE = ("cases: synthetic datasets (3-4 samples, ploidy 2..8 incl. odd, 4-5 loci incl. one without SNVs and one with >= 2, a "
+        "(sample, locus) without reads, --report none / all / random subset of AFP AOP ACP GP GL) x program "
+        "(call, call-exact, assemble) x selection of samples (every non-empty subset; several orders; one multi-sample BAM; a "
+        "sample<TAB>path list file on it; --read-group-field ID) ; pool files (pool of two, "
+        "pool of all, pool of one, a sample in several pools, a pool named like a member) vs merged BAMs; per-sample parameter "
+        "files x all four programs (plumbing: one case per locus and run); every (locus, sample) of every run gives one "
         "encode_sample_reads comparison and every assemble locus one call_posterior_haplotypes / labelling comparison. "
         "Non-trivial: a run with >= 2 samples (columns), a pool with >= 2 members and a duplicated read (pools), a locus "
         "with >= 1 ALT haplotype (assemble model). Distinct by canonical case description.")
 
-MCMC = ["--mcmc-steps", "300", "--mcmc-burn", "100"]
+MCMC0 = ["--mcmc-steps", "300", "--mcmc-burn", "100"]
 ASM_STATS = ["GQ", "SQ", "DP", "RCOUNT", "RCALLS", "MEC", "MECP", "GPM", "SPM", "MCI"]
 
 
@@ -90,10 +107,14 @@ class Observer:
             if obs.active:
                 import pysam
                 rec = {"locus": data.locus.name, "samples": {}, "members": {}, "arrays": {},
-                       "ploidy": dict(data.sample_ploidy), "inbreeding": dict(data.sample_inbreeding)}
+                       "ploidy": dict(data.sample_ploidy), "inbreeding": dict(data.sample_inbreeding or {}),
+                       "order": list(data.samples), "formatfields": [f.id for f in data.formatfields]}
                 if hasattr(data.locus, "frequencies") and hasattr(data.locus, "alts"):
                     rec["haplotypes"] = data.locus.encode_haplotypes()
                     rec["frequencies"] = np.array(data.locus.frequencies, dtype=float)
+                    rec["mask_ref"] = bool(data.locus.mask_reference_allele)
+                else:
+                    rec["n_alleles"] = [int(x) for x in data.locus.count_alleles()]
                 for s in data.samples:
                     rec["samples"][s] = ([r.tobytes() for r in data.read_dists[s]],
                                          [int(c) for c in data.read_counts[s]],
@@ -118,6 +139,8 @@ class Observer:
         def call_posterior_haplotypes(posteriors, threshold=0.01):
             res = orig_cph(posteriors, threshold=threshold)
             if obs.active:
+                if obs.reads:
+                    obs.reads[-1]["called_haplotypes"] = np.array(res[0])
                 stats = []
                 for p in posteriors:
                     h, w, o = p.allele_frequencies(dosage=True)
@@ -226,7 +249,7 @@ def flush_model(chk, drv, pending):
                 sample = {"request": req[:400], "impl": str(impl)[:300], "model": a[:300]}
         chk.case(req, bool(meta.get("nontrivial")), sample=sample)
         if kind in ("reads", "gt"):
-            if a != impl:
+            if a.strip() != impl.strip():      # (a sample without reads: both sides end in an empty list)
                 chk.disagreement({"reads": "encode_sample_reads (pool concatenation + unique_counts) != encodeSample",
                                   "gt": "_genotype_as_alleles != genotypeAsAlleles"}[kind],
                                  {**meta, "request": req[:2000], "impl": impl, "model": a})
@@ -289,6 +312,54 @@ def sub_multiset(a, b):
 
 def refmasked(rec):
     return "REFMASKED" in rec["INFO"]
+
+
+R_FIELDS = ["AFP", "AOP", "ACP"]     # one value per allele (REF first)
+G_FIELDS = ["GP", "GL"]              # one value per unordered genotype, VCF order
+_GT_ORDER = {}
+
+
+def vcf_genotype_order(n_alleles, ploidy):
+    """the unordered genotypes over `n_alleles` alleles as sorted allele tuples, in VCF order"""
+    key = (n_alleles, ploidy)
+    if key not in _GT_ORDER:
+        gts = list(itertools.combinations_with_replacement(range(n_alleles), ploidy))
+        gts.sort(key=genotype_index)
+        _GT_ORDER[key] = gts
+    return _GT_ORDER[key]
+
+
+def keyed_fields(rec, sd):
+    """the optional per-allele / per-genotype FORMAT arrays of one sample keyed by allele SEQUENCES (allele numbers are
+    not comparable between runs of assemble); a field of unexpected length maps to None"""
+    alleles = [rec["REF"]] + rec["ALT"]
+    out = {}
+    for k in R_FIELDS:
+        if k in sd and sd[k] not in (".", ""):
+            vals = sd[k].split(",")
+            out[k] = dict(zip(alleles, vals)) if len(vals) == len(alleles) else None
+    ploidy = len(sd.get("GT", "").replace("|", "/").split("/"))
+    for k in G_FIELDS:
+        if k in sd and sd[k] not in (".", ""):
+            vals = sd[k].split(",")
+            if math.comb(len(alleles) + ploidy - 1, ploidy) > 200000:
+                continue
+            gts = vcf_genotype_order(len(alleles), ploidy)
+            out[k] = ({tuple(sorted(alleles[a] for a in g)): v for g, v in zip(gts, vals)}
+                      if len(vals) == len(gts) else None)
+    return out
+
+
+def keyed_text(rec, sd):
+    """canonical text of `keyed_fields` (sorted by sequence) for comparisons up to the last printed digit"""
+    parts = []
+    for k, d in sorted(keyed_fields(rec, sd).items()):
+        if d is None:
+            parts.append(f"{k}=?")
+            continue
+        items = sorted(("/".join(key) if isinstance(key, tuple) else key, v) for key, v in d.items())
+        parts.append(f"{k}=" + ",".join(f"{a}:{v}" for a, v in items))
+    return ":".join(parts)
 
 
 def close_text(a, b):
@@ -357,6 +428,25 @@ def compare_assemble(chk, small, big, sel_small, sel_big, tag, permutation=False
                     chk.violation(f"assemble: {k} of sample {name} at {rec['ID']} depends on the other samples",
                                   {**case, "sample": name, "field": k, "small": sd.get(k), "big": bs[name].get(k)},
                                   "C10/assemble/stat")
+            k1, k2 = keyed_fields(rec, sd), keyed_fields(b, bs[name])
+            for k in R_FIELDS + G_FIELDS:
+                if k not in k1 and k not in k2:
+                    continue
+                if k1.get(k) is None or k2.get(k) is None:
+                    chk.count(f"assemble:{k}-unexpected-length-or-missing")
+                    continue
+                chk.count(f"assemble:{k}-compared-by-sequence")
+                for key, v1 in k1[k].items():
+                    if key not in k2[k]:
+                        continue
+                    if k == "GP" and refmasked(rec) != refmasked(b) and rec["REF"] in key:
+                        continue     # a genotype with the reference allele has no probability while the reference is masked
+                    if v1 != k2[k][key]:
+                        chk.violation(f"assemble: {k} of sample {name} at {rec['ID']} for "
+                                      f"{'genotype' if isinstance(key, tuple) else 'allele'} {key} depends on the other samples",
+                                      {**case, "sample": name, "field": k, "key": key, "small": v1, "big": k2[k][key]},
+                                      "C10/assemble/array-field")
+                        break
             s1, s2 = gt_seqs(rec, sd), gt_seqs(b, bs[name])
             named1 = [x for x in s1 if x != "."]
             named2 = [x for x in s2 if x != "."]
@@ -385,7 +475,6 @@ def reads_multisets(run):
 
 def genotype_index(alleles):
     """VCF order index of a sorted genotype (combinatorial number system, cf. C11)"""
-    import math
     return sum(math.comb(a + i, i + 1) for i, a in enumerate(sorted(alleles)))
 
 
@@ -447,6 +536,8 @@ def compare_pool_vs_merged(chk, prog, pooled, merged, pools, tag):
             if prog.startswith("assemble"):
                 t1 = ":".join(sd.get(k, "") for k in ASM_STATS) + ":" + ",".join(gt_seqs(rec, sd))
                 t2 = ":".join(md.get(k, "") for k in ASM_STATS) + ":" + ",".join(gt_seqs(m, md))
+                if set(rec["ALT"]) == set(m["ALT"]) and refmasked(rec) == refmasked(m):
+                    t1, t2 = t1 + ":" + keyed_text(rec, sd), t2 + ":" + keyed_text(m, md)
             else:
                 t1, t2 = col_text(rec, sd), col_text(m, md)
             chk.count("pool:columns-compared")
@@ -512,16 +603,33 @@ def run(tier, replay=None):
     obs.install()
     pending = []
     try:
+        # per-sample parameter plumbing of all four programs (per-sample --ploidy / --inbreeding / --mcmc-temperatures /
+        # --gamete-* files, --report GL GP AFP): every model fit and array function gets the sample's own values and reads
+        plumbing.run_plumbing(chk, C.rng(PROP + ":plumbing"), work, PROP, tier=tier, obs=obs)
         n_datasets = {"warm": 1, "quick": 3, "thorough": 8}[tier]
         for d in range(n_datasets):
             n_samples = 3 if d % 2 == 0 else 4
-            feats = frozenset() if d < 2 else frozenset(r.sample(["mates", "indels", "clips", "lowqual"], 2))
+            # dataset 1: a (sample, locus) pair without any read; later ones: two read-level features (+ sometimes no-depth)
+            feats = frozenset() if d == 0 else frozenset({"nodepth"}) if d == 1 else frozenset(
+                r.sample(["mates", "indels", "clips", "lowqual"], 2) + (["nodepth"] if r.random() < 0.4 else []))
             # assemble is run twice: default reporting threshold, and a high one (many '.' alleles when a sample is alone)
             hi_thr = ["--haplotype-posterior-threshold", str(r.choice([0.5, 0.8, 0.95]))]
+            # ploidies: 2/4, then odd and high ones
+            ploidies = (2, 4) if d == 0 else (3, 6, 2, 5) if d == 1 else r.choice([(2, 5, 8), (4, 7, 2), (3, 6, 2), (5, 2, 6)])
             ds = synth.make_dataset(r, os.path.join(work, f"ds{d}"), n_samples=n_samples, n_loci=4 if d == 0 else 5,
-                                    ploidies=(2, 4), max_snvs=4, depth=(5, 16), contig_len=700, features=feats)
+                                    ploidies=ploidies, max_snvs=4, depth=(5, 16), contig_len=700, features=feats)
             seed = ["--mcmc-seed", str(r.randint(1, 10 ** 6))]
-            tag0 = {"dataset": d, "n_samples": n_samples, "features": sorted(feats)}
+            MCMC = MCMC0 if d == 0 else ["--mcmc-steps", "200", "--mcmc-burn", "100"]      # (higher ploidies: shorter chains)
+            # optional FORMAT / INFO arrays: none (call-exact then takes its streaming path), all, a random subset
+            optional = ["AFP", "AOP", "ACP", "GP", "GL"]
+            report = [] if d == 0 else optional if d == 1 else sorted(set(r.sample(optional, r.randint(1, 3)) + [r.choice(["GP", "GL"])]))
+            report_args = ["--report", *report] if report else []
+            tag0 = {"dataset": d, "n_samples": n_samples, "features": sorted(feats), "report": report,
+                    "ploidy": dict(ds.ploidy)}
+            chk.count(f"dataset:report={'+'.join(report) or 'none'}")
+            chk.count(f"dataset:ploidies={sorted(set(ds.ploidy.values()))}")
+            for f_ in sorted(feats):
+                chk.count(f"dataset:feature:{f_}")
             bam = ds.sample_bam
 
             def argv_for(prog, sel, hv=None, extra=(), ploidy=None):
@@ -529,10 +637,10 @@ def run(tier, replay=None):
                 if prog.startswith("assemble"):
                     a = ["mchap", "assemble", "--bam", *bams, "--ploidy", ploidy or ds.ploidy_file, "--targets", ds.bed,
                          "--variants", ds.snv_vcf, "--reference", ds.fasta, *MCMC, *seed, *extra,
-                         *(hi_thr if prog == "assemble-hi" else [])]
+                         *(hi_thr if prog == "assemble-hi" else []), *report_args]
                 else:
                     a = ["mchap", prog, "--bam", *bams, "--ploidy", ploidy or ds.ploidy_file, "--haplotypes", hv,
-                         *(MCMC + seed if prog == "call" else []), *extra]
+                         *(MCMC + seed if prog == "call" else []), *extra, *report_args]
                 return a
 
             # ---- assemble with all samples (also provides the haplotypes for call / call-exact)
@@ -588,8 +696,62 @@ def run(tier, replay=None):
                 queue_reads_cases(pending, res, f"{prog} multi-sample bam")
             flush_model(chk, drv, pending)
 
+            # ---- a subset (in another order) selected out of the multi-sample BAM through a `sample<TAB>path` list file
+            for v in range(1 if tier != "thorough" else 3):
+                k = r.randint(1, len(S) - 1) if v != 1 else len(S)
+                sel = r.sample(list(S), k)
+                lst = synth.write_text(os.path.join(work, f"ds{d}.bamlist{v}.txt"), "".join(f"{s_}\t{multi}\n" for s_ in sel))
+                for prog in ("call", "call-exact", "assemble"):
+                    tag = {**tag0, "prog": prog, "selection": sel, "via": "sample<TAB>path list file on the multi-sample BAM"}
+                    a = argv_for(prog, S, hv)
+                    i = a.index("--bam")
+                    a[i + 1:i + 1 + len(S)] = [lst]
+                    res = run_prog(obs, a, f"{prog} bam list file {sel}")
+                    chk.count(f"runs:{prog}:bam-list-file:{len(sel)}")
+                    chk.case({"kind": "bam-list-file", **tag}, len(sel) >= 2)
+                    if prog.startswith("assemble"):
+                        compare_assemble(chk, res, base[prog], sel, ds.samples, tag,
+                                         permutation=len(sel) == len(S))
+                    else:
+                        compare_call_columns(chk, prog, base[prog], res, sel, tag)
+                    queue_reads_cases(pending, res, f"{prog} bam list file")
+            flush_model(chk, drv, pending)
+
+            # ---- samples named by read-group ID (--read-group-field ID) on the multi-sample BAM: same columns under the ID names
+            rgs = ds.read_groups[multi]
+            id_of = {}
+            for rg in rgs:
+                id_of.setdefault(rg["SM"], []).append(rg["ID"])
+            if all(len(id_of.get(s_, [])) == 1 for s_ in S):
+                name_of = {id_of[s_][0]: s_ for s_ in S}
+                id_ploidy = synth.write_text(os.path.join(work, f"ds{d}.ploidy-by-id.txt"),
+                                             "".join(f"{id_of[s_][0]}\t{ds.ploidy[s_]}\n" for s_ in reversed(S)))
+                for prog in ("call", "call-exact", "assemble"):
+                    tag = {**tag0, "prog": prog, "selection": "multi-sample BAM, --read-group-field ID", "ids": id_of}
+                    a = argv_for(prog, S, hv, extra=["--read-group-field", "ID"], ploidy=id_ploidy)
+                    i = a.index("--bam")
+                    a[i + 1:i + 1 + len(S)] = [multi]
+                    res = run_prog(obs, a, f"{prog} read-group-field ID")
+                    chk.count(f"runs:{prog}:read-group-field-ID")
+                    chk.case({"kind": "read-group-field-ID", **tag}, True)
+                    queue_reads_cases(pending, res, f"{prog} read-group-field ID")
+                    bad = [n for rec_ in res["records"] for n in rec_["sample_names"] if n not in name_of]
+                    if bad:
+                        chk.violation(f"{prog}: with --read-group-field ID the columns are not named by the read-group IDs",
+                                      {**tag, "columns": res["records"][0]["sample_names"]}, "C10/columns/order")
+                        continue
+                    for rec_ in res["records"]:
+                        rec_["sample_names"] = [name_of[n] for n in rec_["sample_names"]]
+                    if prog.startswith("assemble"):
+                        compare_assemble(chk, res, base[prog], list(S), ds.samples, tag, permutation=False)
+                    else:
+                        compare_call_columns(chk, prog, base[prog], res, list(S), tag)
+                flush_model(chk, drv, pending)
+
             # ---- pools vs physically merged BAMs
-            pool_defs = [("P_ab", [S[0], S[1]]), ("P_all", list(S)), ("P_one", [S[-1]]), ("P_ba", [S[1], S[0]])]
+            # (one pool carries the name of one of its members)
+            pool_defs = [("P_ab", [S[0], S[1]]), ("P_all", list(S)), ("P_one", [S[-1]]), (S[1], [S[1], S[0]])]
+            chk.count("pools:pool-named-like-a-member")
             if len(S) >= 4:
                 pool_defs.append(("P_cd", [S[2], S[3]]))
             r.shuffle(pool_defs)
@@ -606,7 +768,7 @@ def run(tier, replay=None):
                 if p not in pool_order:
                     pool_order.append(p)
             pool_file = synth.write_text(os.path.join(work, f"ds{d}.pools.txt"), "".join(f"{s}\t{p}\n" for s, p in seq))
-            pool_ploidy = {p: r.choice([2, 4]) for p in pools}
+            pool_ploidy = {p: r.choice([2, 4]) if d == 0 else r.choice([2, 3, 4, 6]) for p in pools}
             ploidy_file = synth.write_text(os.path.join(work, f"ds{d}.pool-ploidy.txt"),
                                            "".join(f"{p}\t{pool_ploidy[p]}\n" for p in pool_order))
             merged_bams = {}
